@@ -2,12 +2,55 @@
 import drivers.c20  # noqa: F401   (registers the drivers)
 
 PROP = "C20"
-LEVEL = "exploration"
-LEVEL_TEXT = "bounded run-time contracts (work in progress)"
-LEVEL_NOTE = "numpy reference"
+LEVEL = "exploration"          # bounded only (DESIGN: no discrete skeleton beyond C15's subsystem index handling)
+LEVEL_TEXT = ("Bounded run-time contracts only: every routine of quimb/calc.py named by the property is evaluated on pure and mixed "
+              "states (ranks 1..full, product / separable / diagonal / Werner / Bell-diagonal / X / classical-quantum) over 32 "
+              "dimension lists with product <= 36 (dims of 1, single subsystem), all bipartitions and disjoint subsystem pairs "
+              "(non-contiguous, reordered, int or tuple), as qarray / ndarray / scipy-sparse inputs, and compared with the textbook "
+              "definition computed in plain numpy (eigvalsh / svd on explicit reshapes); invariance under random local unitaries and "
+              "subsystem relabelling, bounds and pure-state identities are asserted on the same cases. Nothing is proved.")
+LEVEL_NOTE = ("Trusted: numpy eigvalsh / svd / eigh / qr, scipy Nelder-Mead (discord reference: grid + 4 refinements), scipy eigsh "
+              "(Heisenberg ground energy); tolerances below; the domain is the stated finite one.")
 TECHNIQUE = "run-time contracts on the real functions vs independent numpy references over a stated bounded domain (bounded stand-in)"
 E1 = []
 PROVIDERS = []
-TRUSTED = ["numpy / scipy.linalg reference computations"]
-ASSUMPTIONS = []
-EXPLANATION = "wip"
+TRUSTED = [
+    "numpy.linalg eigvalsh / eigh / svd / qr and scipy.optimize / scipy.sparse.linalg.eigsh used by the references",
+    "reference library in drivers/c20.py (partial trace / transpose by reshape, entropies in bits, Uhlmann fidelity as "
+    "||sqrt(a) sqrt(b)||_1 with clipped spectra, Wootters concurrence, discord by grid search + Nelder-Mead)",
+]
+ASSUMPTIONS = [
+    "domain: prod(dims) <= 36 (two-qubit measures: pairs alone or embedded in 3-4 subsystems; Pauli decomposition <= 3 qubits; "
+    "cross matrices <= 5 qubits; Heisenberg energy L in 6..12)",
+    "tolerances: 1e-9 relative for entropies / mutual information, 1e-8 for trace norms of operators (|eigenvalues| is Lipschitz), "
+    "1e-6 absolute wherever a square root of a (possibly null) spectrum is taken -- tr_sqrt, pure-state negativity / logneg via "
+    "Schmidt coefficients, fidelity with a rank-deficient argument (a clipped eigen-decomposition reaches d*sqrt(eps) ~ 5e-7; the "
+    "operator path of quimb is at 2e-5 there: finding C20-a), 1e-9 for full-rank fidelity, 2e-8 absolute for trace distance "
+    "(sqrt(1-F^2) of kets), 1e-7 for concurrence, 1e-5 for quantum discord (numerical optimum), 2e-3 relative for the "
+    "asymptotic heisenberg_energy formula",
+    "negativity / logneg are taken across the bipartition A | complement of the state as given (what the code does; the "
+    "docstring of negativity mentions tracing out)",
+    "quantum discord D(A|B): projective measurements on B = sysb; states on which one local COBYLA run from (pi/2, pi) on the "
+    "textbook objective does not reach the global optimum are flagged in params (single_start_suboptimal)",
+    "measure with a random outcome and dephase(rand_rank) use numpy's global generator: the contract is on the support / structure "
+    "(outcome of non-zero probability and matching collapse; diagonal admixture of the requested rank), not on the draw",
+    "simulate_counts: frequencies within 6 sigma of C*p, keys are base-phys_dim strings of length n",
+    "sparse inputs: kets are passed as scipy csr in one third of the cases of the main drivers; csr density operators have their "
+    "own driver (sparse-inputs) covering every measure once per dimension list",
+    "approximate (Lanczos) routes are kept exact (approx_thresh default / None / 1e9 all exceed the sizes); the lazy partial-trace "
+    "operators they rely on are densified and compared with the exact reduced state / partial transpose",
+    "is_eigenvector: vectors whose variance lies within a decade of the tolerance are skipped (undecidable in floating point)",
+]
+EXPLANATION = (
+    "E3 (bounded): seven drivers. entropies: entropy (operator, eigenvalue list, rank=), entropy_subsys, mutinf / "
+    "mutual_information (ket, operator, rank=), mutinf_subsys (incl. the pure-bipartition route), schmidt_gap, tr_sqrt, "
+    "tr_sqrt_subsys, with S(A)=S(B) and I=2S for pure states, 0 <= I <= 2 log min(dA,dB), symmetry, local-unitary and relabelling "
+    "invariance, ket vs projector, approx_thresh variants. negativity: partial_transpose (matrix, involution), negativity, logneg / "
+    "logarithmic_negativity, logneg_subsys vs the reduced-operator route, lazy_ptr_linop / lazy_ptr_ppt_linop densified, bounds, "
+    "zero on separable states, Schmidt-coefficient formula. distances: fidelity (4 argument paths, squared), trace_distance "
+    "(isherm both), Fuchs-van de Graaf, unitary invariance, identical / commuting / orthogonal pairs, purify. two-qubit: "
+    "concurrence, one_way_classical_information, quantum_discord on bare and embedded pairs with analytic anchors (Bell, product, "
+    "Werner, classical-quantum, pure). maps-and-measurement: kraus_op (subsystems in any order, check=), projector (degenerate, "
+    "eigendecomposition input, autoblock), measure (chosen / random outcome, degenerate eigenspaces), simulate_counts, dephase. "
+    "decompositions-and-correlations: pauli_decomp, bell_decomp, correlation, pauli_correlations, ent_cross_matrix, qid, "
+    "is_degenerate, is_eigenvector, page_entropy, heisenberg_energy. sparse-inputs: every measure on csr kets / operators.")
